@@ -8,10 +8,21 @@ A point of the input triangle t = (A,B,C) is (1−u−v)·A + u·B + v·C; we wr
                   triangle `s : Tri2 K`.
 `orient2`       : twice the signed area; the input triangle (0,0),(1,0),(0,1) has orient2 = 1.
 
-P1 `clip_winding`   every output triangle has orient2 ≥ 0 in that plane (proved, no extra hypotheses
-                    beyond those of `clip_bary`: well-formed outcodes, equal attribute lengths)
-P4 `clip_output_subset_visible`  (see below)
-P3 / P2 : CoverFan.lean / CoverIn.lean
+P1 `clip_winding`                (this file) every output triangle has orient2 ≥ 0 in that plane;
+   `clip_polygon_conv`           the whole clipped polygon is weakly convex, counter-clockwise
+P4 `clip_output_subset_visible`  (this file) every convex combination of an output triangle's corners is
+   `…_pos`                       in V = {simplex, all six D ≤ 0}; 4-D form: inside the frustum, in t
+P3 `clip_nonoverlap`             (CoverFan.lean) output triangles have pairwise disjoint open interiors
+P2 `clip_covers`                 (CoverAll.lean) every point of V lies in the closed triangle of some
+                                 output triangle, PROVIDED V has non-empty interior (∃ q0 in the open
+                                 simplex strictly inside all six planes). Without that hypothesis the
+                                 statement is false (CoverEx.lean: a triangle touching the frustum in one
+                                 vertex is dropped entirely). `clip_nonempty` is a corollary.
+P5 CoverEx.lean                  a triangle through two planes → pentagon → three fan triangles.
+All under the hypotheses of `clip_bary` only: well-formed outcodes (`TriWF`), equal attribute lengths.
+Not done: the optional 3-D/screen-space restatement of the orientation sign for w > 0.
+Proof layers: CoverConv (Conv invariant) → CoverClip2 (2-D S–H, Conv preserved) → CoverBridge
+(`clipPlane` = `clipPlane2` on coordinates) → CoverIn/CoverStep (one-plane coverage) → CoverAll.
 -/
 import Retro.Props.C03.CoverBridge
 
